@@ -1042,10 +1042,81 @@ impl<'a> Walk<'a> {
                 self.kind("pat_tuple");
                 tagged("ptuple", pats.iter().map(|p| self.pat(*p)).collect())
             }
-            hir::Pat::PConstr { .. } => self.bad("PConstr"),
+            hir::Pat::PConstr { constructor, args } => {
+                let Some(info) = self.ctor_info(&constructor) else { return self.bad("PConstr-qualified") };
+                // a struct constructor used with tuple-pattern syntax is a diagnostic of its own ("must use field syntax")
+                if let S::L(items) = &info {
+                    if items.first() == Some(&a("ctor")) {
+                        let is_struct = match &constructor {
+                            hir::ConstructorRef::Resolved(_) => false,
+                            _ => true,
+                        };
+                        if is_struct {
+                            return self.bad("PConstr-unresolved");
+                        }
+                    }
+                }
+                self.kind("pat_constr");
+                let mut v = vec![info];
+                v.extend(args.iter().map(|p| self.pat(*p)));
+                tagged("pconstr", v)
+            }
             hir::Pat::PStruct { .. } => self.bad("PStruct"),
-            _ => self.bad("typed-int-pattern"),
+            hir::Pat::PInt8 { value } => self.tint(&value, Ty::TInt8, -(1i128 << 7), (1i128 << 7) - 1),
+            hir::Pat::PInt16 { value } => self.tint(&value, Ty::TInt16, -(1i128 << 15), (1i128 << 15) - 1),
+            hir::Pat::PInt32 { value } => self.tint(&value, Ty::TInt32, -(1i128 << 31), (1i128 << 31) - 1),
+            hir::Pat::PInt64 { value } => self.tint(&value, Ty::TInt64, -(1i128 << 63), (1i128 << 63) - 1),
+            hir::Pat::PUInt8 { value } => self.tint(&value, Ty::TUint8, 0, (1i128 << 8) - 1),
+            hir::Pat::PUInt16 { value } => self.tint(&value, Ty::TUint16, 0, (1i128 << 16) - 1),
+            hir::Pat::PUInt32 { value } => self.tint(&value, Ty::TUint32, 0, (1i128 << 32) - 1),
+            hir::Pat::PUInt64 { value } => self.tint(&value, Ty::TUint64, 0, (1i128 << 64) - 1),
         }
+    }
+    /// an integer literal pattern with a suffix; only in-range literals (an out-of-range one adds a parse diagnostic)
+    fn tint(&mut self, value: &str, ty: Ty, lo: i128, hi: i128) -> S {
+        match value.replace('_', "").parse::<i128>() {
+            Ok(v) if v >= lo && v <= hi => {
+                self.kind("pat_typed_int");
+                tagged("ptint", vec![dump::ty(&ty)])
+            }
+            _ => self.bad("typed-int-pattern-range"),
+        }
+    }
+    /// what `infer_constructor_expr` finds for the written constructor: `(ctor constructor-type arity)` / `(noctor)` / `(ambiguous)`
+    fn ctor_info(&mut self, cref: &hir::ConstructorRef) -> Option<S> {
+        let path = match cref {
+            hir::ConstructorRef::Resolved(hir::ConstructorId::EnumVariant { enum_def, variant_idx }) => {
+                let hir::Def::EnumDef(ed) = self.table.def(*enum_def) else { return None };
+                let (vname, _) = ed.variants.get(*variant_idx as usize)?;
+                let mut segs = self.table.def_path(*enum_def).segments.clone();
+                segs.push(hir::PathSegment::new(vname.to_ident_name()));
+                hir::Path::new(segs)
+            }
+            hir::ConstructorRef::Unresolved(p) => p.clone(),
+            hir::ConstructorRef::Ambiguous { .. } => return Some(tagged("ambiguous", vec![])),
+        };
+        let variant = compiler::tast::TastIdent(path.last_ident()?.clone());
+        let ns = path.namespace_segments();
+        let env = self.genv.current();
+        let found = if ns.is_empty() {
+            env.lookup_constructor_with_namespace(None, &variant)
+        } else {
+            let name = ns.iter().map(|x| x.seg().clone()).collect::<Vec<_>>().join("::");
+            if name.contains("::") {
+                return None; // a qualified type name: another package
+            }
+            env.lookup_constructor_with_namespace(Some(&compiler::tast::TastIdent(name)), &variant)
+        };
+        Some(match found {
+            None => tagged("noctor", vec![]),
+            Some((c, cty)) => {
+                let arity = match &c {
+                    compiler::common::Constructor::Enum(ec) => env.enums().get(&ec.type_name)?.variants.get(ec.index)?.1.len(),
+                    compiler::common::Constructor::Struct(sc) => env.structs().get(&sc.type_name)?.fields.len(),
+                };
+                tagged("ctor", vec![dump::ty(&cty), n(arity)])
+            }
+        })
     }
     fn expr(&mut self, id: hir::ExprId) -> S {
         self.ids.push(id);
@@ -1120,7 +1191,13 @@ impl<'a> Walk<'a> {
             }
             hir::Expr::EFloat32 { .. } => self.bad("EFloat32"),
             hir::Expr::EFloat64 { .. } => self.bad("EFloat64"),
-            hir::Expr::EConstr { .. } => self.bad("EConstr"),
+            hir::Expr::EConstr { constructor, args } => {
+                let Some(info) = self.ctor_info(&constructor) else { return self.bad("EConstr-qualified") };
+                self.kind("constr");
+                let mut v = vec![n(i), info];
+                v.extend(args.iter().map(|e| self.expr(*e)));
+                tagged("constr", v)
+            }
             hir::Expr::EStructLiteral { .. } => self.bad("EStructLiteral"),
             hir::Expr::EArray { items } => {
                 self.kind("array");
@@ -1527,6 +1604,44 @@ fn result_s(rec: &FnRec, fin: Option<&compiler::typer::results::TypeckResults>) 
     tagged("result", items)
 }
 
+/// a program that is not generated here (corpus, catalogue): observed, its functions written as INF / SKIP rows
+fn extra_program(prefix: &str, k: usize, path: &std::path::Path, src: &str, label: &str, key: &str, out: &mut String, cov: &mut Cov) {
+    let col: Rc<RefCell<Vec<FnRec>>> = Rc::new(RefCell::new(Vec::new()));
+    let col2 = col.clone();
+    compiler::typer::verif_set_fn_observer(Some(Box::new(move |genv: &PackageTypeEnv, typer: &mut Typer, diags: &Diagnostics, f: &hir::Fn, phase: u8| {
+        observe(&col2, genv, typer, diags, f, phase)
+    })));
+    let r = catch_unwind(AssertUnwindSafe(|| compiler::pipeline::pipeline::typecheck_with_packages_and_results(path, src)));
+    compiler::typer::verif_set_fn_observer(None);
+    let (fin, verdict) = match r {
+        Ok(Ok((_table, results, _genv, diags))) => {
+            let rejected = diags.iter().any(|d| d.severity() == diagnostics::Severity::Error);
+            (Some(results), if rejected { "typer" } else { "accepted" })
+        }
+        Ok(Err(_)) => (None, "error"),
+        Err(_) => (None, "panic"),
+    };
+    out.push_str(&format!("{}{}\tPROG\t{}\t{}\t{}\t\n", prefix, k, esc_line(label), verdict, key));
+    cov.inc(&format!("{}_programs", key));
+    let recs = col.borrow();
+    for rec in recs.iter() {
+        let id = format!("{}{}.{}", prefix, k, rec.name);
+        cov.inc(&format!("{}_functions", key));
+        if let Some(kind) = &rec.skip {
+            out.push_str(&format!("{}\tSKIP\t{}\n", id, kind));
+            cov.inc(&format!("{}_functions_outside", key));
+            cov.inc(&format!("{}_outside_{}", key, kind.replace('-', "_")));
+            continue;
+        }
+        let Some(input) = &rec.input else { continue };
+        if rec.phase != 2 {
+            continue;
+        }
+        out.push_str(&format!("{}\tINF\t{}\t{}\n", id, input.to_text(), result_s(rec, fin.as_ref()).to_text()));
+        cov.inc(&format!("{}_functions_inside", key));
+    }
+}
+
 pub fn main(args: &util::Args) {
     util::quiet_panics();
     let total = args.n.unwrap_or(if args.tier == "thorough" { 5000 } else { 500 });
@@ -1679,41 +1794,17 @@ pub fn main(args: &util::Args) {
     for (k, dir) in util::corpus_pipeline_dirs().iter().enumerate() {
         let path = dir.join("main.gom");
         let Ok(src) = std::fs::read_to_string(&path) else { continue };
-        let col: Rc<RefCell<Vec<FnRec>>> = Rc::new(RefCell::new(Vec::new()));
-        let col2 = col.clone();
-        compiler::typer::verif_set_fn_observer(Some(Box::new(move |genv: &PackageTypeEnv, typer: &mut Typer, diags: &Diagnostics, f: &hir::Fn, phase: u8| {
-            observe(&col2, genv, typer, diags, f, phase)
-        })));
-        let r = catch_unwind(AssertUnwindSafe(|| compiler::pipeline::pipeline::typecheck_with_packages_and_results(&path, &src)));
-        compiler::typer::verif_set_fn_observer(None);
-        let (fin, verdict) = match r {
-            Ok(Ok((_table, results, _genv, diags))) => {
-                let rejected = diags.iter().any(|d| d.severity() == diagnostics::Severity::Error);
-                (Some(results), if rejected { "typer" } else { "accepted" })
-            }
-            Ok(Err(_)) => (None, "error"),
-            Err(_) => (None, "panic"),
-        };
         let name = dir.file_name().map(|x| x.to_string_lossy().to_string()).unwrap_or_default();
-        out.push_str(&format!("K{}\tPROG\t{}\t{}\tcorpus\t\n", k, esc_line(&format!("corpus program {} ({})", name, path.display())), verdict));
-        cov.inc("corpus_programs");
-        let recs = col.borrow();
-        for rec in recs.iter() {
-            let id = format!("K{}.{}", k, rec.name);
-            cov.inc("corpus_functions");
-            if let Some(kind) = &rec.skip {
-                out.push_str(&format!("{}\tSKIP\t{}\n", id, kind));
-                cov.inc("corpus_functions_outside");
-                cov.inc(&format!("corpus_outside_{}", kind.replace('-', "_")));
-                continue;
-            }
-            let Some(input) = &rec.input else { continue };
-            if rec.phase != 2 {
-                continue;
-            }
-            out.push_str(&format!("{}\tINF\t{}\t{}\n", id, input.to_text(), result_s(rec, fin.as_ref()).to_text()));
-            cov.inc("corpus_functions_inside");
-        }
+        extra_program("K", k, &path, &src, &format!("corpus program {} ({})", name, path.display()), "corpus", &mut out, &mut cov);
+    }
+    // ---- the call-form catalogue of C03 (arity / argtype): the accepted twin of every call form
+    for (k, (id, src)) in crate::c03::catalogue_good_programs(&scratch.join("cat0")).iter().enumerate() {
+        let dir = scratch.join(format!("cat{:05}", k));
+        let _ = std::fs::create_dir_all(&dir);
+        let path = dir.join("main.gom");
+        let _ = std::fs::write(&path, src);
+        extra_program("A", k, &path, src, &format!("catalogue program {}\n{}", id, src), "catalogue", &mut out, &mut cov);
+        let _ = std::fs::remove_dir_all(&dir);
     }
     let _ = std::fs::remove_dir_all(&scratch);
     let covrow: Vec<String> = cov.m.iter().map(|(k, v)| format!("{}={}", k, v)).collect();
